@@ -1,5 +1,6 @@
 import Gonuts.Lemmas.MintSeq
 import Gonuts.Lemmas.MintConc
+import Gonuts.Lemmas.SwapConc
 /-!
   C01 — no double spend.  Theorems over `Model.Mint` (the mint after the `fix:` commits).
 
@@ -223,6 +224,25 @@ def w2 : List CEvt :=
 
 theorem w2_both_paid : paidOut (runCEvts (initC 0 false {}) w2) 0 = true ∧ paidOut (runCEvts (initC 0 false {}) w2) 1 = true := by decide
 end witness
+
+/-- What IS true of overlapping requests: swaps alone never double-spend.  In ANY event sequence — any number of
+    threads of any kind (other swaps, melts, mints, polls), every schedule, injected storage errors, process kills,
+    sequential operations in between — two different swap requests that both returned signatures presented disjoint
+    secrets.  (Lemmas/SwapConc.lean: the swap program reaches a success only through a `SaveProofs(inputs)` call that
+    returned ok — a syntactic fact about its decision tree — and that call succeeds only on secrets that are not in the
+    spent table, which never shrinks.)  The double acceptances of `schedules_full_false` all involve a melt, whose
+    Lightning payment is not tied to such a call. -/
+theorem overlapping_swaps_never_share (fee : UInt64) (pct : Bool) (cfg : Cfg) (evts : List CEvt) (t1 t2 : Nat) (hne : t1 ≠ t2)
+    (ps1 ps2 : List Proof) (outs1 outs2 : List BMsg) (v1 v2 : Option E) (sigs1 sigs2 : List BSig)
+    (ho1 : (runCEvts (initC fee pct cfg) evts).ops.find? (·.1 == t1) = some (t1, Op.swap ps1 outs1 v1))
+    (ho2 : (runCEvts (initC fee pct cfg) evts).ops.find? (·.1 == t2) = some (t2, Op.swap ps2 outs2 v2))
+    (hr1 : threadResult (runCEvts (initC fee pct cfg) evts) t1 = some (.sigs (.ok sigs1)))
+    (hr2 : threadResult (runCEvts (initC fee pct cfg) evts) t2 = some (.sigs (.ok sigs2))) :
+    ∀ p1 ∈ ps1, ∀ p2 ∈ ps2, p1.secret ≠ p2.secret :=
+  swaps_never_share fee pct cfg evts t1 t2 hne ps1 ps2 outs1 outs2 v1 v2 sigs1 sigs2 ho1 ho2 hr1 hr2
+
+/-- Non-vacuity: in witness w1 the swap thread did return signatures (and the melt, not being a swap, is not covered). -/
+example : ∃ sigs, threadResult (runCEvts (initC 0 false {}) witness.w1) 1 = some (.sigs (.ok sigs)) := ⟨_, rfl⟩
 
 /-- The concurrent half of C01 is false of the code as it is: two overlapping requests can both be accepted
     (known findings `C01/sched/swap||melt/…`, `C01/sched/melt||melt/…`; replayed against the real mint by stream
